@@ -525,7 +525,12 @@ std::string treeToMathml(const J &t)
         return "<ci>" + t["name"].str() + "</ci>";
     }
     if (op == "cn") {
-        return "<cn cellml:units=\"dimensionless\">" + num(t) + "</cn>";
+        std::string form = t["form"].str("plain");
+        if (form == "enot") {
+            return "<cn cellml:units=\"dimensionless\" type=\"e-notation\">" + num(t) + "<sep/>0</cn>";
+        }
+        std::string suffix = form == "upperE" ? "E0" : (form == "lowerE" ? "e0" : (form == "plusExp" ? "e+0" : (form == "dot" && num(t).find('.') == std::string::npos ? "." : "")));
+        return "<cn cellml:units=\"dimensionless\">" + num(t) + suffix + "</cn>";
     }
     if (op == "true" || op == "false") {
         return "<" + op + "/>";
